@@ -34,25 +34,43 @@ fn remove_input_attr(inputs: Punctuated<FnArg, Token![,]>) -> Punctuated<FnArg, 
 
 impl Fold for StripInput {
     fn fold_trait_item_fn(&mut self, i: TraitItemFn) -> TraitItemFn {
+        // Only parameters of methods annotated with Sylvia attributes are forwarded to the
+        // generated messages. Attributes on parameters of other methods have to stay intact.
+        let is_handler = i
+            .attrs
+            .iter()
+            .any(|attr| SylviaAttribute::new(attr).is_some());
         let attrs = i
             .attrs
             .into_iter()
             .filter(|attr| SylviaAttribute::new(attr).is_none())
             .collect();
 
-        let inputs = remove_input_attr(i.sig.inputs);
+        let inputs = match is_handler {
+            true => remove_input_attr(i.sig.inputs),
+            false => i.sig.inputs,
+        };
         let sig = Signature { inputs, ..i.sig };
         fold::fold_trait_item_fn(self, TraitItemFn { attrs, sig, ..i })
     }
 
     fn fold_impl_item_fn(&mut self, i: ImplItemFn) -> ImplItemFn {
+        // Only parameters of methods annotated with Sylvia attributes are forwarded to the
+        // generated messages. Attributes on parameters of other methods have to stay intact.
+        let is_handler = i
+            .attrs
+            .iter()
+            .any(|attr| SylviaAttribute::new(attr).is_some());
         let attrs = i
             .attrs
             .into_iter()
             .filter(|attr| SylviaAttribute::new(attr).is_none())
             .collect();
 
-        let inputs = remove_input_attr(i.sig.inputs);
+        let inputs = match is_handler {
+            true => remove_input_attr(i.sig.inputs),
+            false => i.sig.inputs,
+        };
         let sig = Signature { inputs, ..i.sig };
         fold::fold_impl_item_fn(self, ImplItemFn { attrs, sig, ..i })
     }
